@@ -16,6 +16,7 @@ from pvc.core import Sym
 
 MODULES = ['dassh.reactor']
 PROPERTY = 'C05'
+LEAN_LEMMAS = ['mesh_increasing']        # /verif/lean/Ghost.lean, checked in the thorough tier
 FUNCTIONS = ['dassh.reactor:Reactor._setup_axial_region_bnds', 'dassh.reactor:Reactor._setup_overall_axial_mesh_req',
              'dassh.reactor:Reactor._check_dz', 'dassh.reactor:Reactor._setup_zpts (loop body + test, cut from source)']
 ASSUMPTIONS = ['np.around(x, 12) is "a nearest multiple of 1e-12 (ties unspecified)", np.floor the integer floor: real '
